@@ -5,6 +5,7 @@ ROOT="$(cd "$(dirname "${BASH_SOURCE[0]}")" && pwd)"
 export CARGO_NET_OFFLINE=true
 mkdir -p "$ROOT/target" "$ROOT/evidence" "$ROOT/replays"
 (cd "$ROOT/sim" && cargo build --release --offline)
+(cd "$ROOT/sim_intern" && cargo build --release --offline)
 
 # Miri target of the C03 tier (cold start is ~1 min; do it here, not in the check)
 "$ROOT/target/release/sim_pico" miri-prebuild || echo "warning: Miri prebuild failed (the C03 check will report it)"
